@@ -258,14 +258,13 @@ fn main() {
         }
         Some("tree") => {
             // tree <tlc-output-with-EDGE-lines> <out.ndjson> <sample_mod> <seed>
-            let text = std::fs::read_to_string(&args[2]).unwrap();
             let f = std::fs::File::create(&args[3]).unwrap();
             let mut sink = Sink::new(Box::new(std::io::BufWriter::new(f)));
             let sample_mod: u64 = args[4].parse().unwrap();
             let seed: u64 = args[5].parse().unwrap();
             let target = args.get(6).map(|s| s.as_str()).unwrap_or("staking");
             let part: (u64, u64) = (args.get(7).and_then(|s| s.parse().ok()).unwrap_or(0), args.get(8).and_then(|s| s.parse().ok()).unwrap_or(1));
-            match tree::run_tree(&text, &mut sink, sample_mod, seed, target, part) {
+            match tree::run_tree(&args[2], &mut sink, sample_mod, seed, target, part) {
                 Ok(st) => {
                     let by: serde_json::Map<String, serde_json::Value> = st.by_kind.iter().map(|(k, v)| (k.clone(), json!({"ok": v.0, "refused": v.1}))).collect();
                     println!("{}", json!({"edges": st.edges, "executed": st.executed, "ok": st.ok_edges, "refused": st.refused_edges,
